@@ -193,3 +193,17 @@ CHECKS["C19"] = {
     "note": TRUST + " Contents that contain the delimiter at a line start are not valid multipart material and are excluded; a name or filename may come back "
             "percent-encoded if it decodes to the original; every reader run is under a wall-clock deadline (a loop becomes a violation).",
 }
+
+CHECKS["C15"] = {
+    "engine": "SEQ",
+    "design_ref": "§3 C15",
+    "technique": "exhaustive request-target and Range/conditional-header enumeration against a real static route over a scratch directory tree with symlinks",
+    "text": "traversal: every target of up to 2 (3 thorough) segments over 19 segment forms (.., ., %2e%2e, .%2E, %2f, %5c, backslash, empty, C:, %00, names of "
+            "files, directories, symlinks to an inside file / outside file / outside directory, a sibling directory sharing the root's name prefix, encoded traversal "
+            "strings) plus 19 classic payloads, sent as raw request lines to a real web.Application with add_static, for follow_symlinks x show_index; every file's "
+            "content names its real location, so a 200/206 body must be an inside file (or reached through a named symlink when following is on) and listings appear "
+            "only with show_index.  ranges: 96 well-formed and 14 malformed Range values x file sizes {0,1,2,5} x 13 conditional-header cases x GET/HEAD; status, "
+            "Content-Range, Content-Length and body must be mutually consistent and equal the RFC 9110 slice; preconditions must give 304/412 without a body.",
+    "note": TRUST + " The tree lives in a scratch directory created and removed by the check; file I/O executor jobs run inline and loop.sendfile is unavailable "
+            "(aiohttp's fallback path); a malformed Range may be ignored or refused; POSIX only.",
+}
